@@ -521,6 +521,24 @@ def pmap(module, func, cases, deadline=20.0, workers=None):
     return results
 
 
+def relayout(a):
+    """same values, another memory layout (C-contiguous / Fortran-ordered / strided view of a larger buffer), chosen
+    deterministically from the content: results must not depend on how the caller's array is laid out in memory"""
+    import numpy as np
+    if a.ndim != 2 or a.size == 0 or os.environ.get("VERIF_NO_RELAYOUT"):
+        return a
+    h = int(hashlib.sha256(a.tobytes() + str(a.dtype).encode()).hexdigest()[:4], 16) % 10
+    if h < 6:
+        return a
+    if h < 8:
+        return np.asfortranarray(a)
+    big = np.zeros((a.shape[0] * 2, a.shape[1] * 2), dtype=a.dtype)
+    big[::2, ::2] = a
+    v = big[::2, ::2]
+    assert not v.flags["C_CONTIGUOUS"] or a.size <= 1
+    return v
+
+
 def to_np(M, dtype=float):
     import numpy as np
     if M is None:
@@ -528,7 +546,7 @@ def to_np(M, dtype=float):
     a = np.array([[np.nan if v is None else v for v in row] for row in M], dtype=float) if (len(M) and isinstance(M[0], list)) else np.array([np.nan if v is None else v for v in M], dtype=float)
     if dtype is not float:
         a = a.astype(dtype)
-    return a
+    return relayout(a)
 
 
 def exc_of(res):
